@@ -1,0 +1,46 @@
+//go:build verif
+
+// Package verifhook provides instrumentation points for the external verification harness.
+// With the "verif" build tag the points call handlers the harness installs; without it
+// every function is empty.
+package verifhook
+
+import "sync/atomic"
+
+var (
+	crashFn atomic.Pointer[func(site, path string)]
+	yieldFn atomic.Pointer[func(point string)]
+)
+
+// SetCrash installs (or with nil removes) the crash-point handler.
+func SetCrash(f func(site, path string)) {
+	if f == nil {
+		crashFn.Store(nil)
+		return
+	}
+	crashFn.Store(&f)
+}
+
+// SetYield installs (or with nil removes) the yield-point handler.
+func SetYield(f func(point string)) {
+	if f == nil {
+		yieldFn.Store(nil)
+		return
+	}
+	yieldFn.Store(&f)
+}
+
+// Crash marks a point before or after a file-system mutation; path is the file or directory
+// being changed.
+func Crash(site, path string) {
+	if f := crashFn.Load(); f != nil {
+		(*f)(site, path)
+	}
+}
+
+// Yield marks a scheduling point; arg identifies the object (mailbox, id) involved.
+func Yield(point string) {
+	if f := yieldFn.Load(); f != nil {
+		(*f)(point)
+	}
+}
